@@ -292,8 +292,13 @@ class ApiMergeStoreHandler(NbdimeHandler, APIHandler):
         # Somehow store unsolved conflicts?
         # conflicts = body['conflicts']
 
+        # Serialize before opening the file, so that a body that is not a
+        # notebook cannot truncate an existing output file:
+        merged_text = nbformat.writes(merged_nb)
+        if not merged_text.endswith('\n'):
+            merged_text += '\n'
         with io.open(path, 'w', encoding='utf8') as f:
-            nbformat.write(merged_nb, f)
+            f.write(merged_text)
         self.finish()
 
 
